@@ -60,9 +60,11 @@ func verifBase() *Config {
 	baseKey := verifWord("base.keyid", 2)
 	cfg.Deb.Signature.KeyID = &baseKey
 	cfg.Contents = files.Contents{
+		// an entry that "deb" drops comes BEFORE one it keeps: a filter that
+		// compacts the shared list in place then changes the configuration
 		{Source: "s0", Destination: "/all"},
-		{Source: "s1", Destination: "/debonly", Packager: "deb"},
 		{Source: "s2", Destination: "/rpmonly", Packager: "rpm"},
+		{Source: "s1", Destination: "/debonly", Packager: "deb"},
 	}
 	return cfg
 }
@@ -150,12 +152,7 @@ func Verif_C13_GetOverride() {
 		v.Assert(info.Umask == 0o022, "zero-umask-keeps-the-base")
 	}
 	// contents addressed to another packager are filtered out
-	okc := len(info.Contents) == 2
-	for _, c := range info.Contents {
-		if c.Packager != "" && c.Packager != "deb" {
-			okc = false
-		}
-	}
+	okc := len(info.Contents) == 2 && info.Contents[0].Destination == "/all" && info.Contents[1].Destination == "/debonly"
 	v.Assert(okc, "content-of-other-packagers-filtered")
 }
 
